@@ -381,6 +381,12 @@ pub fn examine_program(text: &str, origin: &str, seed: u64, report: &mut Report)
 
 /// Directed programs: call graph shapes over static globals, aliasing probes for out/inout
 pub fn directed_programs() -> Vec<String> {
+    let mut all = call_graph_programs();
+    all.extend(crate::checks::c01::scoping_programs());
+    all
+}
+
+fn call_graph_programs() -> Vec<String> {
     vec![
         // transitive use through a chain; a function that does not need the global sits in between
         "static int g0 = 1;\nstatic float g1 = 2.0f;\ngroupshared float lds[4];\nint leaf(int x) { g0 += x; return g0; }\nint mid(int x) { return leaf(x) + 1; }\nint pure(int x) { return x * 2; }\nint top(int x) { lds[0] = (float)x; g1 = lds[0] + g1; return mid(pure(x)) + (int)g1; }\nint only_pure(int x) { return pure(x) + pure(x + 1); }\n".to_string(),
